@@ -58,7 +58,7 @@ def make_cfg(rs, tier):
             "threading": rs.random() < 0.7, "length": rs.choice([4, 8, 16]), "depth": 2, "uuid_seed": rs.getrandbits(32),
             "nres": rs.choice([1, 2]), "nobj": rs.choice([1, 2]), "p_missing": rs.choice([0.0, 0.5]),
             "p_outside": rs.choice([0.0, 0.2]), "p_ctx": 0.3 if ns.families[fam]["buffered"] else 0.0,
-            "oracles": ["nowrite", "result"], "max_ctx": 3, "mixed": False, "ro": [0, 1]}
+            "oracles": ["nowrite"], "max_ctx": 3, "mixed": False, "ro": [0, 1]}
     if ns.families[fam]["buffered"] and rs.random() < 0.4:
         # mixed configuration: resource 0 is only read, the others are written; small capacities force flushes
         cfg.update(mixed=True, nobj=1, nres=rs.choice([2, 3]), ro=[0], kinds=cfg["kinds"] + [G.pick(rs, ["dict", "list"])],
@@ -66,7 +66,7 @@ def make_cfg(rs, tier):
         cfg["forced_flush_possible"] = cfg["capmode"] == "small"
         # a read may legitimately trigger the capacity-forced flush of PENDING writes of other files (documented by
         # the library); in this configuration the per-step signature check of the read-only resources decides
-        cfg["oracles"] = ["result"]
+        cfg["oracles"] = []
         cfg["strategy"] = ns.families[fam]["strategy"]
     return cfg
 
